@@ -209,7 +209,7 @@ func c11Replay(args []string) error {
 }
 
 func c11Prog(rep *Report, c *segCase, dir, segBin, combBin string, idx int, note func(string, bool)) bool {
-	in := buildMultiProg(c.Tracks, idx%3 == 1, false, false)
+	in := buildMultiProg(c.Tracks, idx%3 == 1, false, false, false)
 	inPath := filepath.Join(dir, "in.mp4")
 	_ = ioutil.WriteFile(inPath, in, 0644)
 	judged := false
